@@ -50,6 +50,7 @@ def main() -> int:
     sys.stdout.flush()
     pid = os.fork()
     if pid == 0:
+        os.setsid()  # own process group: the parent can take the whole body (workers, compilers) down with it
         rc = 2
         try:
             rc = body(prop, args)
@@ -62,7 +63,39 @@ def main() -> int:
             sys.stdout.flush()
             sys.stderr.flush()
             os._exit(rc)
-    _, status = os.waitpid(pid, 0)
+    # the body runs the real code in-process; if that hangs (an endless loop in the compiler, a dead lock) the check must
+    # end with a tool failure (exit 2) and leave no process behind. Limits: 1 h (quick), 8 h (thorough); also when this
+    # process itself is told to stop.
+    import signal
+    import time
+
+    def _kill_body(*_a):
+        try:
+            os.killpg(pid, signal.SIGKILL)
+        except OSError:
+            pass
+
+    def _on_term(signum, _frame):
+        _kill_body()
+        os._exit(2)
+
+    signal.signal(signal.SIGTERM, _on_term)
+    signal.signal(signal.SIGINT, _on_term)
+    deadline = time.time() + float(os.environ.get("VERIF_CHECK_TIMEOUT", "3600" if args.tier == "quick" else "28800"))
+    status = None
+    while status is None:
+        w, st = os.waitpid(pid, os.WNOHANG)
+        if w == pid:
+            status = st
+            break
+        if time.time() > deadline:
+            _kill_body()
+            os.waitpid(pid, 0)
+            print(f"MACHINERY-ERROR {prop}: the check did not finish within its time limit (the code under test hangs, or the machine is overloaded)", file=sys.stderr)
+            mark.unlink(missing_ok=True)
+            return 2
+        time.sleep(0.2)
+    _kill_body()  # stragglers of a finished body (worker subprocesses)
     try:
         if os.WIFSIGNALED(status):
             sig = os.WTERMSIG(status)
